@@ -55,6 +55,16 @@ def run(F, R, tier):
             for a in adv:
                 R.ob("C14-a", "advance happens after the seen-check", may_reach(F, ins, a) and peel_value(a["r"]).get("lid") == nxt_lid,
                      "the loop variable is advanced before / without the visited-set check", where(a))
+            # once a specifier has been recorded as seen, the cursor advances to
+            # it before the iteration can end (otherwise resolve() returns a
+            # specifier that is not the last one it followed)
+            bad, _ = must_pass(F, lp["body"], lambda n: n in adv, is_reset=lambda n: n is ins, init=True,
+                               exit_kinds=("fallthrough", "break", "continue", "return"))
+            # the break taken because the insert failed is the legitimate exit without advance
+            bad = [(k_, n_) for (k_, n_) in bad if n_ is not seen_break[0]]
+            R.ob("C14-a", "after a successful seen-insert the cursor advances before the iteration ends", not bad,
+                 "a path leaves the loop iteration after `seen.insert(next)` succeeded but before `cur = next`: resolve() stops one hop short of what it recorded (lookups disagree with the walk, resolve is not idempotent)",
+                 where(bad[0][1]) if bad else "")
             # the set is seeded with the starting points before the loop
             seeds = [n for n in walk(res["body"]) if n.get("k") == "MethodCall" and n["name"] == "insert" and n is not ins and peel(n["recv"]).get("lid") == peel(ins["recv"]).get("lid") and may_reach(F, n, lp)]
             R.ob("C14-a", "visited set is seeded before the loop", len(seeds) >= 1, "the starting specifier is not in the visited set: a cycle back to the start is followed once more", where(lp))
